@@ -565,6 +565,7 @@ impl<'a> Parser<'a> {
 
         if let Some(b':') = self.peek() {
             self.bump();
+            let secs_start = self.i;
             let (secs_u, d3) = self.read_uint_unders_to_u32()?;
             if secs_u > 59 {
                 return Err(self.err("seconds out of range in sexagesimal literal"));
@@ -574,9 +575,18 @@ impl<'a> Parser<'a> {
 
             if let Some(b'.') = self.peek() {
                 self.bump();
-                let (frac, df) = self.read_frac_part_unders()?;
+                let (_frac, df) = self.read_frac_part_unders()?;
                 total_digits += df;
-                secs += frac;
+                // `SS.fff` is one decimal number: whole seconds + fraction would round twice
+                // (`1.14` must not become 1 + 0.14 = 1.1400000000000001).
+                let text: String = self.b[secs_start..self.i]
+                    .iter()
+                    .filter(|c| **c != b'_')
+                    .map(|c| *c as char)
+                    .collect();
+                secs = text
+                    .parse::<f64>()
+                    .map_err(|_| self.err("invalid seconds in sexagesimal literal"))?;
             }
         }
 
